@@ -36,6 +36,8 @@ def generate(seed, scratch):
                 _dot_includes(world["files"][p]["items"], rs, cfg["dot_includes"])
     return {"property": PID, "seed": seed, "world": world, "cfg": cfg,
             "schedule": {"root_alias": rs.random() < 0.3, "relink": rs.random() < 0.3,
+                         # terminal verbosity / debug output of the front end must not change any result
+                         "cli_flags": rs.choice([[], [], ["--debug"], ["-v"], ["-q"]]),
                          # the API allows a code base made of several listed directories
                          "multi_dir": rs.sample(["d1", "d2", "inc1", "inc2", "d1/inc"], rs.randint(2, 4)) if rs.random() < 0.2 else None,
                          "rp_evict": "all" if rs.random() < 0.3 else sorted(rs.sample(range(60), 4)),
@@ -269,14 +271,32 @@ def execute(case, scratch):
             for w_, t_ in ((cw, topc), (world, top)):
                 r_ = os.path.join(t_, w_["root"])
                 af = os.path.join(t_, W.analysis_path(w_))
-                c = runners.run_fresh("cli_run", {"top": t_, "cwd": r_, "module": "codebasin",
-                                                  "argv": ["-R", "summary", "-R", "duplicates", af]})
-                t = runners.run_fresh("cli_run", {"top": t_, "cwd": r_, "module": "codebasin.tree", "argv": [af]})
+                cwd_, extra_, pwd_ = r_, [], False
+                if w_ is world:
+                    extra_ = list(sched.get("cli_flags") or [])
+                    if sched.get("root_alias"):
+                        # started like a shell would after `cd <link>`: the link to the root lives in ANOTHER
+                        # directory than the root, and $PWD names the link
+                        far = os.path.join(t_, "far_root")
+                        if not os.path.lexists(far):
+                            os.symlink(os.path.join(t_, w_["root"]), far)
+                        cwd_, pwd_ = far, True
+                        stats["faults"]["cwd_is_far_link"] = 1
+                c = runners.run_fresh("cli_run", {"top": t_, "cwd": cwd_, "module": "codebasin", "set_pwd": pwd_,
+                                                  "argv": extra_ + ["-R", "summary", "-R", "duplicates", af]})
+                t = runners.run_fresh("cli_run", {"top": t_, "cwd": cwd_, "module": "codebasin.tree", "set_pwd": pwd_,
+                                                  "argv": [af]})
                 cov = None
                 if w_["platforms"]:
                     cj = os.path.join(t_, "cov.json")
+                    sdir = r_
+                    if w_ is world and sched.get("root_alias"):
+                        # the source directory itself named through a link
+                        sdir = os.path.join(t_, os.path.dirname(w_["root"]), "Lroot")
+                        if not os.path.lexists(sdir):
+                            os.symlink(os.path.basename(w_["root"]), sdir)
                     cv = runners.run_fresh("cli_run", {"top": t_, "cwd": r_, "module": "codebasin.coverage",
-                                                       "argv": ["compute", "-S", r_, "-o", cj,
+                                                       "argv": ["compute", "-S", sdir, "-o", cj,
                                                                 os.path.join(t_, w_["platforms"][0]["db"])], "keep": []})
                     if cv["rc"] == 0 and os.path.exists(cj):
                         import json as _json
